@@ -398,6 +398,7 @@ var nodeLabelVocab = []struct {
 	{"canary", []string{"yes"}},
 	{"exclude", []string{"foo"}},
 	{"big", []string{"1"}},
+	{"role/worker", []string{"", "", "false"}}, // a marker label: present with an empty value (or, oddly, "false")
 }
 
 var taintVocab = []string{
@@ -413,7 +414,7 @@ func genNode(r *rand.Rand, name string, plain float64) *NodeDef {
 	n := &NodeDef{Name: name, Labels: map[string]string{}}
 	for _, lv := range nodeLabelVocab {
 		p := 0.6
-		if lv.k == "canary" || lv.k == "exclude" || lv.k == "big" {
+		if lv.k == "canary" || lv.k == "exclude" || lv.k == "big" || lv.k == "role/worker" {
 			p = 0.3
 		}
 		if chance(r, p) {
@@ -438,6 +439,8 @@ func genTemplate(r *rand.Rand, letter string, fancy float64) *TemplateDef {
 			t.NodeSelector = map[string]string{"zone": "a"}
 		case 1:
 			t.NodeSelector = map[string]string{"pool": "x"}
+		case 2:
+			t.NodeSelector = map[string]string{"role/worker": ""} // selects the nodes that carry the marker, not those without it
 		}
 	}
 	if chance(r, fancy) {
